@@ -62,13 +62,13 @@ class C11(Spec):
     driver = 'sort'
     lib_srcs = ['array.c', 'vector.c', 'memory.c']
     driver_extra = '-Wl,--wrap=rand'
-    header_words = ('esize', 'arr', 'vcap')
+    header_words = ('esize', 'arr', 'vcap', 'cmpmode')
     rule = ('a case = one array (keys, element size) + operations, each applied to a fresh copy: every selector of '
             'cstl_raw_array_sort (4 named + out-of-range), the vector entry points, reverse, find and (sorted arrays) '
             'search with every probe. closure = ALL arrays up to the tier length over keys {0,1,2} and, for the '
             'randomised quicksort, every distinguishable sequence of pivot draws (enumerated by the model, which reports '
             'how each draw is reduced); plus seeded adversarial large arrays. Compared: return value, final elements '
-            '(key:tag, filler bytes verified), complete log of comparison/swap/rand callback calls as index pairs. '
+            '(key:tag, filler bytes verified; the C comparison callback returns -1/0/1, key differences or a varying magnitude per the cmpmode header - the model sees signs only), complete log of comparison/swap/rand callback calls as index pairs. '
             'non-trivial = at least two completed operations; distinct = distinct (header, operations) text')
     trusted = ['modelled, not verified: the C statements of src/array.c lines 15-361 are transcribed by hand into '
                'SortModel.v (lists with checked indices; size_t indices as nat, ssize_t/int indices as Z with explicit '
@@ -187,12 +187,16 @@ class C11(Spec):
                 if is_sorted(keys):
                     for p in range(4):
                         ops.append(('search %d' if (cnt + p) % 2 else 'vsearch %d') % p)
-                cases.append(Case('ex%d' % cnt, hdr, ops, 'closure'))
-                nops += len(ops)
+                # the contract fixes only the sign of a comparison result: run everything with
+                # -1/0/1 and with key differences (and the varying magnitude on every third array)
+                for mode in (0, 1, 2) if cnt % 3 == 0 else (0, 1):
+                    cases.append(Case('ex%d_m%d' % (cnt, mode), hdr + ['cmpmode %d' % mode], ops, 'closure'))
+                    nops += len(ops)
                 cnt += 1
         # every pivot-draw sequence of QUICK_R, enumerated by the model
         rc, st = self.bfs([rlen, 3] + ESIZES)
-        for c in rc:
+        for k, c in enumerate(rc):
+            c.header.append('cmpmode %d' % (k % 3))
             nops += len(c.ops)
         cases += rc
         # two-key sorted arrays of every length up to 40: every binary-search path
@@ -201,8 +205,10 @@ class C11(Spec):
                 if 0 <= cut <= n:
                     keys = [1] * cut + [3] * (n - cut)
                     ops = ['search %d' % p for p in (0, 1, 2, 3, 4)] + ['vsearch 1', 'vsearch 3', 'find 3', 'reverse']
-                    cases.append(Case('bs%d_%d' % (n, cut), ['esize %d' % ESIZES[(n + cut) % 7]] + arr_lines(keys), ops, 'closure'))
-                    nops += len(ops)
+                    for mode in (0, 1):
+                        cases.append(Case('bs%d_%d_m%d' % (n, cut, mode),
+                                          ['esize %d' % ESIZES[(n + cut) % 7]] + arr_lines(keys) + ['cmpmode %d' % mode], ops, 'closure'))
+                        nops += len(ops)
         return cases, dict(states=cnt + st.get('states', 0), transitions=nops, closed=True,
                            max_len=maxlen, max_len_all_draws=rlen)
 
@@ -230,7 +236,7 @@ class C11(Spec):
         for n in small + large:
             for pname, keys in patterns(n):
                 es = ESIZES[ci % len(ESIZES)]
-                hdr = ['esize %d' % es] + arr_lines(keys) + ['vcap %d' % (ci % 4)]
+                hdr = ['esize %d' % es] + arr_lines(keys) + ['vcap %d' % (ci % 4), 'cmpmode %d' % rnd.randrange(3)]
                 ops = []
                 quad_ok = n <= 300
                 for s in SELECTORS:
@@ -255,7 +261,7 @@ class C11(Spec):
                 for p in sorted(set([sk[0], sk[-1], sk[n // 2], sk[0] - 1 if sk[0] > 0 else 0, 255, rnd.randrange(256), rnd.choice(sk)])):
                     ops.append('search %d' % p)
                     ops.append('vsearch %d' % p)
-                cases.append(Case('advs_%s_%d' % (pname, n), ['esize %d' % es] + arr_lines(sk), ops, 'random'))
+                cases.append(Case('advs_%s_%d' % (pname, n), ['esize %d' % es] + arr_lines(sk) + ['cmpmode %d' % rnd.randrange(3)], ops, 'random'))
                 ci += 1
         # many random small/medium arrays
         for k in range(200 if tier == 'quick' else 3000):
@@ -263,14 +269,14 @@ class C11(Spec):
             nk = rnd.choice([2, 3, 5, 256])
             keys = [rnd.randrange(nk) for _ in range(n)]
             es = rnd.choice(ESIZES)
-            hdr = ['esize %d' % es] + arr_lines(keys) + ['vcap %d' % rnd.randrange(3)]
+            hdr = ['esize %d' % es] + arr_lines(keys) + ['vcap %d' % rnd.randrange(3), 'cmpmode %d' % rnd.randrange(3)]
             ops = ['sort %d' % s for s in (0, 2, 3, rnd.choice([5, 99, -7, 2 ** 31 - 1]))]
             ops.append('sort 1 ' + ' '.join(str(rnd.randrange(0, 2 ** 31)) for _ in range(min(n, 60))))
             ops.append('vsort 1 ' + ' '.join(str(rnd.randrange(0, n + 1)) for _ in range(min(n, 60))))
             ops += ['reverse', 'vsortd', 'find %d' % rnd.randrange(nk)]
             cases.append(Case('rnd%d' % k, hdr, ops, 'random'))
             sk = sorted(keys)
-            cases.append(Case('rnds%d' % k, ['esize %d' % es] + arr_lines(sk),
+            cases.append(Case('rnds%d' % k, ['esize %d' % es] + arr_lines(sk) + ['cmpmode %d' % rnd.randrange(3)],
                               ['search %d' % rnd.randrange(nk), 'vsearch %d' % rnd.randrange(nk)], 'random'))
         return cases
 
@@ -347,6 +353,12 @@ def main(tier, seed, replay):
         cs = core.parse_script(open(replay).read(), origin='replay')
         core.split_header(cs, SPEC.header_words)
         big = [c for c in cs if is_big(c)]
+        if big:
+            # the sanitized driver never sees the > 2^31-element cases
+            os.makedirs(os.path.join(core.BUILD, 'work', 'C11'), exist_ok=True)
+            replay = os.path.join(core.BUILD, 'work', 'C11', 'replay-small.%d.script' % os.getpid())
+            with open(replay, 'w') as f:
+                f.write(''.join(c.text() for c in cs if not is_big(c)))
     else:
         big = [c for c in Spec.corpus(SPEC) if is_big(c)]
     res = {}
